@@ -127,7 +127,7 @@ def decode_bytes(arg, regs):
 
 BYTE_ARGS = {
     "ikm", "rng", "sk", "pk", "bytes", "psk", "pskid", "pkr", "sks", "pks", "skr", "enc", "info",
-    "pt", "aad", "ct", "tag", "exctx", "key", "bn", "es", "pks2", "pks3", "pks4",
+    "pt", "aad", "ct", "tag", "exctx", "key", "bn", "es", "pks2", "pks3", "pks4", "table",
 }
 
 # ---------------------------------------------------------------------------
